@@ -71,3 +71,18 @@ Example C03_example :
   | _ => false
   end = true.
 Proof. vm_compute. reflexivity. Qed.
+
+(** ---- function bodies REGENERATED from match.py as glue terms (Gen/MatchGlue.v), run by the interpreter of Model/GlueFun.v with
+     the leaves of Model/GlueLeaves.v (callees mean their models), are the hand-written models ---- *)
+From TW Require Import Model.GlueLeaves Gen.MatchGlue Proofs.GlueMatchProofs.
+Open Scope string_scope.
+(** the window loop of _interval_integral_matching_stretch (zip over the targets and consecutive fixed points, end + 1,
+    in-place slice assignment) is the model's interval_match *)
+Theorem C03_glue_interval_loop : forall pw x y targets fixed r, length x = length y ->
+  outcome_arr (call_fun (match_callf pw) array_methf no_apply no_pow match_functions "_interval_integral_matching_stretch"
+     [("x", VArr x); ("y", VArr y); ("integral_values", VArr targets); ("fixed_points_indices_in_x", VIdxArr (ints fixed));
+      ("integral_method", VStrV (rule_name r)); ("alpha", VOpaque "alpha")])
+  = interval_match pw r x y targets fixed.
+Proof. exact glue_interval_loop. Qed.
+Print Assumptions C03_glue_interval_loop.
+Close Scope string_scope.
